@@ -493,5 +493,6 @@ pub fn parts() -> Vec<Box<dyn PartDyn>> {
         shrink_budget: 3000,
         confirm_runs: 1,
             fuzz: Some(fuzz_case),
+            watchdog_s: 0,
     })]
 }
